@@ -429,7 +429,8 @@ class World:
             sim = update_requests_from_iterator(iter(rows), sim, env, self.rate_structure)
         sim, _ = CancelRequests().update(sim, env)
         instructions = tuple(mk_instruction(e) for e in events if e[0] == "I")
-        sim, _ = StepSimulation.from_tuple(self.generators(instructions)).update(sim, env)
+        sim, carried = StepSimulation.from_tuple(self.generators(instructions)).update(sim, env)
+        self._carried_controller = carried  # the controller a runner would carry into the next step (C16)
         return sim
 
     # -- replay -----------------------------------------------------------------------------------
